@@ -397,6 +397,52 @@ fn fingerprint(zone: &HashMapTreeZone, probes: &[(WName, Box<quandary::name::Nam
     out
 }
 
+/// The add alphabet for a zone `z.y.` of class CH: RDATA equality depends on
+/// the class as well as on the type (an A record is a name plus a 16-bit
+/// address in CH and four opaque octets elsewhere; SRV has an embedded name
+/// in IN only), so the de-duplication a zone performs must follow the zone's
+/// own class. Pairs that differ in the case of an embedded name only are one
+/// record where the class gives the type a name field and two where it does
+/// not; plus class mismatches against a CH zone (IN and HS records).
+fn alphabet_ch() -> Vec<Rr> {
+    let cha = |name: &str, addr: u16| -> Vec<u8> {
+        let mut v = wire::wname(name);
+        v.extend_from_slice(&addr.to_be_bytes());
+        v
+    };
+    let n1 = wire::wname("ns.z.y.");
+    let n1u = wire::wname("NS.Z.y.");
+    let r = Rr::new;
+    vec![
+        r("z.y.", t::SOA, c::CH, 1, &soa("ns.z.y.", 1)),
+        r("Z.Y.", t::SOA, c::CH, 1, &soa("NS.z.Y.", 1)), // equal by case
+        r("z.y.", t::NS, c::CH, 1, &n1),
+        r("Z.y.", t::NS, c::CH, 1, &n1u), // equal by case
+        // CH A: name + address; the name compares case-insensitively
+        r("a.z.y.", t::A, c::CH, 1, &cha("net.", 1)),
+        r("a.z.y.", t::A, c::CH, 1, &cha("NET.", 1)), // equal to the previous by case
+        r("A.z.y.", t::A, c::CH, 1, &cha("net.", 2)), // address differs: a second record
+        r("a.z.y.", t::A, c::CH, 2, &cha("net.", 1)), // TTL conflict once the RRset exists
+        r("z.y.", t::A, c::CH, 1, &cha("Net.", 1)),
+        r("z.y.", t::A, c::CH, 1, &cha("nEt.", 1)), // equal by case, at the apex
+        // SRV outside IN is opaque: case variants of the target are distinct
+        r("_s._t.z.y.", t::SRV, c::CH, 1, &srv(1, 2, 5060, "t.z.y.")),
+        r("_s._t.z.y.", t::SRV, c::CH, 1, &srv(1, 2, 5060, "T.Z.y.")), // a second record in CH
+        r("_s._t.z.y.", t::SRV, c::CH, 1, &srv(1, 2, 5060, "t.z.y.")), // exact duplicate of the first
+        // MX has a name field in every class
+        r("m.z.y.", t::MX, c::CH, 1, &mx(10, "t.z.y.")),
+        r("m.z.y.", t::MX, c::CH, 1, &mx(10, "T.z.Y.")), // equal by case
+        r("m.z.y.", t::TXT, c::CH, 1, b"\x01x"),
+        r("m.z.y.", t::TXT, c::CH, 1, b"\x01X"), // octet-wise: a second record
+        // class mismatches against a CH zone
+        r("a.z.y.", t::A, c::IN, 1, &[192, 0, 2, 1]),
+        r("z.y.", t::NS, c::IN, 1, &n1),
+        r("f.z.y.", t::TXT, c::HS, 1, b"\x01x"),
+        // outside the zone
+        r("s.y.", t::A, c::CH, 1, &cha("net.", 1)),
+    ]
+}
+
 // ---------------------------------------------------------------------- step
 
 pub struct Env {
@@ -412,6 +458,10 @@ impl Env {
         let probes = probe_names(&alpha);
         let fp_probes = probes.iter().map(|p| (p.clone(), qname(p))).collect();
         Env { apex: wire::wname(apex), class: c::IN, alpha, probes, fp_probes }
+    }
+    fn with_class(mut self, class: u16) -> Env {
+        self.class = class;
+        self
     }
     fn new_zone(&self) -> HashMapTreeZone {
         HashMapTreeZone::new(qname(&self.apex), Class::from(self.class), GluePolicy::Narrow)
@@ -658,6 +708,9 @@ pub fn main(ctx: Ctx) -> ! {
     let env_core = Env::new("z.y.", core);
     let mut runs: Vec<(&Env, usize)> = vec![(&env, ctx.pick(3, 4)), (&env_root, ctx.pick(3, 4))];
     runs.push((&env_core, ctx.pick(4, 5)));
+    // A zone of class CH: de-duplication must follow the zone's class.
+    let env_ch = Env::new("z.y.", alphabet_ch()).with_class(c::CH);
+    runs.push((&env_ch, ctx.pick(4, 5)));
     let mut parts = Vec::new();
     let mut traces = 0u64;
     let mut states = 0u64;
@@ -666,7 +719,7 @@ pub fn main(ctx: Ctx) -> ! {
         let t0 = ctx.elapsed_s();
         let n = enumerate(&ctx, e, d);
         eprintln!("[C20] apex {}: {} histories of length <= {} over {} adds ({:.1}s)", nt(&e.apex), n, d, e.alpha.len(), ctx.elapsed_s() - t0);
-        parts.push(json!({"family": "all add sequences, no merging", "apex": nt(&e.apex), "class": "IN", "alphabet": e.alpha.len(), "max_length": d, "histories_executed": n, "wall_s": ((ctx.elapsed_s() - t0) * 100.0).round() / 100.0}));
+        parts.push(json!({"family": "all add sequences, no merging", "apex": nt(&e.apex), "class": e.class, "alphabet": e.alpha.len(), "max_length": d, "histories_executed": n, "wall_s": ((ctx.elapsed_s() - t0) * 100.0).round() / 100.0}));
         traces += n;
         states += n;
         transitions += n;
